@@ -56,7 +56,7 @@ func checkC01(ctx *Ctx, sc *Scenario) {
 	nontrivial := ""
 	runScenario(ctx, sc, func(w *World, rec *CycleRecord) bool {
 		ctx.Eval(1)
-		class := fmt.Sprintf("%s:%s:%s", sc.Fan.Kind, sc.Loop.Kind, sc.Map.Kind)
+		class := fmt.Sprintf("%s:%s:%s", sc.Fan.Label(), sc.Loop.Kind, sc.Map.Kind)
 		if rec.Panic != "" {
 			ctx.Violation("panic-in-cycle:"+class, fmt.Sprintf("cycle %d: %s", rec.Idx, rec.Panic), sc)
 			return true
@@ -128,7 +128,7 @@ func checkC01(ctx *Ctx, sc *Scenario) {
 	})
 	if nontrivial != "" {
 		lim := c01LimitClass(sc)
-		ctx.Nontrivial(fmt.Sprintf("%s|%s|m%d|%s|%s|%s|ns=%v|%s|%d", sc.Fan.Kind, sc.Loop.Kind, sc.Loop.M, sc.Map.Kind, lim, nontrivial, sc.Fan.NeverStop, sc.Plant.Kind, hashStr(jsonStr(sc.Steps))%1000))
+		ctx.Nontrivial(fmt.Sprintf("%s|%s|m%d|%s|%s|%s|ns=%v|%s|%d", sc.Fan.Label(), sc.Loop.Kind, sc.Loop.M, sc.Map.Kind, lim, nontrivial, sc.Fan.NeverStop, sc.Plant.Kind, hashStr(jsonStr(sc.Steps))%1000))
 	}
 }
 
